@@ -1,0 +1,30 @@
+//go:build verif
+// +build verif
+
+package redis
+
+import "net"
+
+// AddRealBackend registers for addr a real backend client (newClient: loopWrite, loopRead, the
+// READONLY greeting) over the given connection, the way createClient does after dialling. The
+// harness owns the other end of the connection.
+func (e *VerifEnv) AddRealBackend(addr string, conn net.Conn) error {
+	u := e.p.u
+	u.clientsMu.Lock()
+	defer u.clientsMu.Unlock()
+	options := []clientOption{
+		withKeyCounter(u.hkc.AllocCounter(addr)),
+		withRedirectionCb(u.handleRedirection),
+		withClusterDownCb(u.handleClusterDown),
+	}
+	c, err := newClient(conn, u.cfg, u.logger, options...)
+	if err != nil {
+		return err
+	}
+	go func() {
+		c.Start()
+		u.removeClient(addr)
+	}()
+	u.addClientLocked(addr, c)
+	return nil
+}
